@@ -2,7 +2,7 @@
    specification (TypesSpec.v).  All statements quantify over all types, at any
    nesting depth and any Fixed-bit placement (induction on the type). *)
 From Coq Require Import List Bool Lia.
-From EvyV Require Import Base TypesSyntax Types TypesFixed TypesSpec TypesSpecProofs.
+From EvyV Require Import Base TypesSyntax Types TypesOld TypesSpec TypesSpecProofs.
 From EvyV.Gen Require Import TypeNames.
 Import ListNotations.
 
@@ -231,21 +231,35 @@ Qed.
 Lemma unify_empty_left b u : unify SEmptyArr b = Some u -> u = b.
 Proof. destruct b; simpl; intro H; inversion H; reflexivity. Qed.
 
-(* result type: the T the parser gives the BinaryExpression is the table's
-   result type — when the left operand has no untyped empty leaf, or is the
-   empty array literal itself under "+" *)
-Theorem binop_result_type op lt rt :
+(* result type.  [bnt0] is binary_node_type without the final fixedType (which
+   does not change the erased type). *)
+Definition bnt0 (op : binop) (lt rt : ty) : ty :=
+  let exp := if is_comparison op then TBool else lt in
+  if is_empty_arr exp && is_plus op then rt else exp.
+
+Lemma erase_fixed_type t : erase (fixed_type t) = erase t.
+Proof. destruct t; reflexivity. Qed.
+
+Lemma bnt_erase op lt rt : erase (binary_node_type op lt rt) = erase (bnt0 op lt rt).
+Proof.
+  unfold binary_node_type, bnt0.
+  destruct (is_array_name _ && fixed rt); [apply erase_fixed_type | reflexivity].
+Qed.
+
+(* before commit f8788c6: the T of the node was the table's result type only
+   when the left operand has no untyped empty leaf, or is [] under "+" *)
+Lemma binop_result_type_old op lt rt :
   spec_ty lt = true -> spec_ty rt = true ->
   validate_binary op lt rt = true ->
   (has_empty lt = false \/ (lt = TEmptyArr /\ op = OpPlus)) ->
-  OpType op (erase lt) (erase rt) (erase (binary_node_type op lt rt)).
+  OpType op (erase lt) (erase rt) (erase (binary_node_type_old op lt rt)).
 Proof.
   intros Hl Hr Hv Hg. rewrite validate_binary_spec in Hv by assumption.
   destruct (op_type op (erase lt) (erase rt)) eqn:O; [|discriminate]. clear Hv.
   apply op_type_iff. rewrite O. f_equal.
   destruct Hg as [He | [-> ->]].
   - assert (Hc := closed_erase lt Hl He).
-    unfold op_type in O. unfold binary_node_type.
+    unfold op_type in O. unfold binary_node_type_old.
     destruct op; simpl in *;
       try (destruct (unify (erase lt) (erase rt)); inversion O; reflexivity);
       destruct lt; simpl in *; try discriminate;
@@ -260,17 +274,19 @@ Proof.
   - simpl in *. apply unify_empty_left in O. exact O.
 Qed.
 
-(* the same for the corrected parseBinaryExpr, now including [] * n *)
-Theorem binop_result_type_fixed op lt rt :
+(* the current parseBinaryExpr: the T of the node is the table's result type
+   for every left operand that is the empty array literal or has no untyped
+   empty leaf — [] * n included *)
+Theorem binop_result_type op lt rt :
   spec_ty lt = true -> spec_ty rt = true ->
   validate_binary op lt rt = true ->
   (has_empty lt = false \/ lt = TEmptyArr) ->
-  OpType op (erase lt) (erase rt) (erase (binary_node_type_fixed op lt rt)).
+  OpType op (erase lt) (erase rt) (erase (binary_node_type op lt rt)).
 Proof.
-  intros Hl Hr Hv [He | ->].
-  - replace (binary_node_type_fixed op lt rt) with (binary_node_type op lt rt).
-    + apply binop_result_type; auto.
-    + unfold binary_node_type, binary_node_type_fixed.
+  intros Hl Hr Hv Hg. rewrite bnt_erase. destruct Hg as [He | ->].
+  - replace (bnt0 op lt rt) with (binary_node_type_old op lt rt).
+    + apply binop_result_type_old; auto.
+    + unfold binary_node_type_old, bnt0.
       destruct (is_comparison op); [reflexivity|].
       destruct lt; simpl in *; try reflexivity; discriminate.
   - rewrite validate_binary_spec in Hv by assumption.
@@ -281,10 +297,20 @@ Proof.
       try discriminate.
 Qed.
 
-(* REFUTED on the unchanged tree: [] * n is typed by its right operand *)
-Lemma binop_result_type_refuted :
+(* the Fixed flag of the node: a concatenation / repetition is as rigid as its
+   right operand or its left operand *)
+Lemma binop_result_fixed op lt rt :
+  is_array_name (bnt0 op lt rt) = true -> fixed rt = true ->
+  fixed (binary_node_type op lt rt) = true \/ is_empty (bnt0 op lt rt) = true \/ is_generic (bnt0 op lt rt) = true.
+Proof.
+  intros Ha Hf. unfold binary_node_type. fold (bnt0 op lt rt). rewrite Ha, Hf. simpl.
+  destruct (bnt0 op lt rt); simpl in *; auto; discriminate.
+Qed.
+
+(* regression lemma about the code BEFORE f8788c6: [] * n was typed by its right operand *)
+Lemma binop_result_type_before_fix_refuted :
   exists op lt rt, spec_ty lt = true /\ spec_ty rt = true /\ validate_binary op lt rt = true /\
-    ~ OpType op (erase lt) (erase rt) (erase (binary_node_type op lt rt)).
+    ~ OpType op (erase lt) (erase rt) (erase (binary_node_type_old op lt rt)).
 Proof.
   exists OpAsterisk, TEmptyArr, TNum. repeat split; try reflexivity.
   intro H. apply op_type_iff in H. vm_compute in H. discriminate.
@@ -423,6 +449,17 @@ Qed.
 Lemma const_spec t : const_ty t = true -> spec_ty t = true.
 Proof. unfold const_ty; intro H; apply andb_true_iff in H as [H _]; exact H. Qed.
 
+Lemma const_nofix t : const_ty t = true -> has_fixed t = false.
+Proof. unfold const_ty; intro H; apply andb_true_iff in H as [_ H]; apply negb_true_iff in H; exact H. Qed.
+
+Lemma merge_fixed_nofix t t2 : has_fixed t2 = false -> merge_fixed t t2 = t.
+Proof. intro H. destruct t; simpl; rewrite H; reflexivity. Qed.
+
+Lemma const_arr s : const_ty s = true -> const_ty (TArr false s) = true.
+Proof. unfold const_ty; simpl; auto. Qed.
+Lemma const_map s : const_ty s = true -> const_ty (TMap false s) = true.
+Proof. unfold const_ty; simpl; auto. Qed.
+
 Lemma comb_const : forall a b sw, const_ty a = true -> const_ty b = true ->
   exists r, comb sw a b = Some r /\ const_ty r = true /\ erase r = cjoin (erase a) (erase b).
 Proof.
@@ -447,7 +484,8 @@ Proof.
         - apply sty_eqb_eq in X; rewrite X; apply sty_eqb_refl.
         - apply sty_eqb_neq; apply sty_eqb_neq in X; congruence. }
       destruct sw; cbn [comb]; cbv zeta; [rewrite Eq' | rewrite Eq];
-        destruct (sty_eqb (erase a) (erase b)) eqn:X.
+        destruct (sty_eqb (erase a) (erase b)) eqn:X;
+        rewrite ?(merge_fixed_nofix _ _ (const_nofix _ (const_arr _ Ha))), ?(merge_fixed_nofix _ _ (const_nofix _ (const_arr _ Hb))).
       * eexists; split; [reflexivity|]. split.
         { unfold const_ty in *; simpl; exact Hb. }
         { simpl. rewrite X. apply sty_eqb_eq in X. rewrite X. reflexivity. }
@@ -478,7 +516,8 @@ Proof.
         - apply sty_eqb_eq in X; rewrite X; apply sty_eqb_refl.
         - apply sty_eqb_neq; apply sty_eqb_neq in X; congruence. }
       destruct sw; cbn [comb]; cbv zeta; [rewrite Eq' | rewrite Eq];
-        destruct (sty_eqb (erase a) (erase b)) eqn:X.
+        destruct (sty_eqb (erase a) (erase b)) eqn:X;
+        rewrite ?(merge_fixed_nofix _ _ (const_nofix _ (const_map _ Ha))), ?(merge_fixed_nofix _ _ (const_nofix _ (const_map _ Hb))).
       * eexists; split; [reflexivity|]. split.
         { unfold const_ty in *; simpl; exact Hb. }
         { simpl. rewrite X. apply sty_eqb_eq in X. rewrite X. reflexivity. }
@@ -506,64 +545,198 @@ Proof.
       unfold const_ty in *; simpl; try exact Hb.
 Qed.
 
+
+(* ---------- combineTypes on variables, constants and empty literals ---------- *)
 Definition abs (t : ty) : kind * sty := (kind_of t, erase t).
+Definition aeq (e1 e2 : kind * sty) : Prop := forall T, Asg e1 T <-> Asg e2 T.
+
+Lemma aeq_refl e : aeq e e.
+Proof. intro T; tauto. Qed.
+
+Lemma asg_any k T : Assignable k T SAny <-> T = SAny.
+Proof.
+  split.
+  - inversion 1; subst; auto. apply converts_any_inv; assumption.
+  - intros ->; constructor.
+Qed.
+
+Lemma aeq_any k1 k2 : aeq (k1, SAny) (k2, SAny).
+Proof. intro T; unfold Asg; simpl. rewrite !asg_any. tauto. Qed.
 
 Lemma abs_const t : const_ty t = true -> abs t = (KConst, erase t).
+Proof. intro H. unfold abs, kind_of. rewrite (const_nofix t H). reflexivity. Qed.
+
+Lemma abs_var t : var_ty t = true -> abs t = (KVar, erase t).
+Proof. intro H. apply var_ty_inv in H as (_ & _ & _ & H). unfold abs, kind_of. rewrite H. reflexivity. Qed.
+
+Lemma nofix_fixed t : has_fixed t = false -> fixed t = false.
+Proof. destruct t; simpl; auto; intro H; apply orb_false_iff in H as [H _]; exact H. Qed.
+
+Lemma pure_spec t : pure_ty t = true -> spec_ty t = true.
 Proof.
-  unfold const_ty, abs, kind_of. intro H. apply andb_true_iff in H as [_ H]. apply negb_true_iff in H.
-  rewrite H; reflexivity.
+  unfold pure_ty. intro H. apply orb_true_iff in H as [H | H].
+  - apply const_spec; exact H.
+  - apply var_ty_inv in H as [H _]; exact H.
 Qed.
 
-Lemma combine_from_const : forall ts c, const_ty c = true -> Forall (fun t => const_ty t = true) ts ->
-  exists r, combine_from c ts = Some r /\ const_ty r = true /\
-            (KConst, erase r) = fold_left sjoin (map abs ts) (KConst, erase c).
+Lemma comb_equal c t : equals c t = true -> comb false c t = Some (merge_fixed c t).
+Proof. intro H. destruct c; cbn [comb]; cbv zeta; rewrite H; reflexivity. Qed.
+
+Lemma comb_fixed c t : equals c t = false -> fixed t || fixed c = true ->
+  comb false c t = Some (if fixed c && negb (fixed t) && accepts c t then c
+                         else if fixed t && negb (fixed c) && accepts t c then t else TAny).
 Proof.
-  induction ts as [|t ts IH]; intros c Hc Hts; simpl.
-  - eexists; repeat split; auto.
-  - inversion Hts; subst. unfold combine2.
-    destruct (comb_const c t false Hc H1) as (r & E & C & ER). rewrite E.
-    destruct (IH r C H2) as (r' & E' & C' & F). exists r'. repeat split; auto.
-    rewrite F. assert (K : kind_of t = KConst) by (generalize (abs_const t H1); unfold abs; congruence).
-    rewrite K, ER. reflexivity.
+  intros H H0. destruct c; cbn [comb]; cbv zeta; rewrite H, H0;
+    destruct (_ && _ && accepts _ t); try reflexivity; destruct (_ && _ && accepts t _); reflexivity.
 Qed.
 
-(* combineTypes on constants and empty literals (any number, any depth): it
-   does not crash and yields the specification's Strictest element type *)
-Theorem combine_const_strictest ts :
-  ts <> [] -> Forall (fun t => const_ty t = true) ts ->
-  exists r, combine ts = Some r /\ const_ty r = true /\ Strictest (map abs ts) (erase r).
+Lemma sty_eqb_sym a b : sty_eqb a b = sty_eqb b a.
+Proof.
+  destruct (sty_eqb a b) eqn:E.
+  - apply sty_eqb_eq in E; subst; symmetry; apply sty_eqb_refl.
+  - symmetry; apply sty_eqb_neq; apply sty_eqb_neq in E; congruence.
+Qed.
+
+Lemma merge_fixed_var_const c t : has_fixed c = false -> var_ty t = true -> merge_fixed c t = t.
+Proof.
+  intros Hc Hv. assert (H := Hv). apply var_ty_inv in H as (_ & _ & _ & Ht).
+  unfold var_ty in Hv. destruct t; try (rewrite andb_false_r in Hv; discriminate).
+  - destruct c; simpl in *; rewrite Ht; simpl; try reflexivity; rewrite Hc; reflexivity.
+  - destruct c; simpl in *; rewrite Ht; simpl; try reflexivity; rewrite Hc; reflexivity.
+Qed.
+
+Lemma var_form t : var_ty t = true ->
+  exists s, (t = TArr true s \/ t = TMap true s) /\ has_fixed s = false.
+Proof.
+  unfold var_ty. intro H. apply andb_true_iff in H as [_ H].
+  destruct t; try discriminate; destruct fx; try discriminate; apply negb_true_iff in H; eauto.
+Qed.
+
+Lemma merge_fixed_var_var c t : var_ty c = true -> var_ty t = true -> equals c t = true -> merge_fixed c t = c.
+Proof.
+  intros Hc Ht He.
+  destruct (var_form c Hc) as (cs & [-> | ->] & Hcs); destruct (var_form t Ht) as (ts & [-> | ->] & Hts);
+    simpl in He; try discriminate; simpl; rewrite (merge_fixed_nofix cs ts Hts); reflexivity.
+Qed.
+
+(* one loop iteration of combineTypes is the specification's least common
+   element type of the two elements (up to the kind of the type any) *)
+Lemma combine2_pure c t : pure_ty c = true -> pure_ty t = true ->
+  exists r, combine2 c t = Some r /\ pure_ty r = true /\ aeq (abs r) (sjoin (abs c) (abs t)).
+Proof.
+  intros Pc Pt. assert (Sc := pure_spec c Pc). assert (St := pure_spec t Pt).
+  assert (Eq := equals_erase c t Sc St).
+  unfold pure_ty in Pc, Pt. apply orb_true_iff in Pc as [Cc | Vc]; apply orb_true_iff in Pt as [Ct | Vt].
+  - (* const const *)
+    destruct (comb_const c t false Cc Ct) as (r & E & C & ER). exists r. split; [exact E|].
+    split; [unfold pure_ty; rewrite C; reflexivity|].
+    rewrite (abs_const r C), (abs_const c Cc), (abs_const t Ct), ER. simpl. apply aeq_refl.
+  - (* const var *)
+    assert (Fc := nofix_fixed c (const_nofix c Cc)).
+    assert (Vt' := Vt). apply var_ty_inv in Vt' as (_ & _ & Ft & HFt).
+    rewrite (abs_const c Cc), (abs_var t Vt). unfold combine2. simpl.
+    destruct (equals c t) eqn:E.
+    + rewrite (comb_equal c t E), (merge_fixed_var_const c t (const_nofix c Cc) Vt).
+      exists t. split; [reflexivity|]. split; [unfold pure_ty; rewrite Vt; apply orb_true_r|].
+      rewrite (abs_var t Vt). symmetry in Eq. apply sty_eqb_eq in Eq. rewrite Eq, conv_b_refl. apply aeq_refl.
+    + rewrite (comb_fixed c t E) by (rewrite Ft; reflexivity). rewrite Fc, Ft. simpl.
+      unfold accepts. rewrite (accepts_from_const t c true St Sc (const_nofix c Cc)).
+      destruct (conv_b (erase c) (erase t)).
+      * exists t. split; [reflexivity|]. split; [unfold pure_ty; rewrite Vt; apply orb_true_r|].
+        rewrite (abs_var t Vt). apply aeq_refl.
+      * exists TAny. split; [reflexivity|]. split; [reflexivity|]. apply aeq_any.
+  - (* var const *)
+    assert (Ft := nofix_fixed t (const_nofix t Ct)).
+    assert (Vc' := Vc). apply var_ty_inv in Vc' as (_ & _ & Fc & HFc).
+    rewrite (abs_var c Vc), (abs_const t Ct). unfold combine2. simpl.
+    destruct (equals c t) eqn:E.
+    + rewrite (comb_equal c t E), (merge_fixed_nofix c t (const_nofix t Ct)).
+      exists c. split; [reflexivity|]. split; [unfold pure_ty; rewrite Vc; apply orb_true_r|].
+      rewrite (abs_var c Vc). symmetry in Eq. apply sty_eqb_eq in Eq. rewrite <- Eq, conv_b_refl. apply aeq_refl.
+    + rewrite (comb_fixed c t E) by (rewrite Fc; apply orb_true_r). rewrite Fc, Ft. simpl.
+      unfold accepts. rewrite (accepts_from_const c t true Sc St (const_nofix t Ct)).
+      destruct (conv_b (erase t) (erase c)).
+      * exists c. split; [reflexivity|]. split; [unfold pure_ty; rewrite Vc; apply orb_true_r|].
+        rewrite (abs_var c Vc). apply aeq_refl.
+      * exists TAny. split; [reflexivity|]. split; [reflexivity|]. apply aeq_any.
+  - (* var var *)
+    assert (Vc' := Vc). apply var_ty_inv in Vc' as (_ & _ & Fc & HFc).
+    assert (Vt' := Vt). apply var_ty_inv in Vt' as (_ & _ & Ft & HFt).
+    rewrite (abs_var c Vc), (abs_var t Vt). unfold combine2. simpl.
+    destruct (equals c t) eqn:E.
+    + rewrite (comb_equal c t E), (merge_fixed_var_var c t Vc Vt E).
+      exists c. split; [reflexivity|]. split; [unfold pure_ty; rewrite Vc; apply orb_true_r|].
+      rewrite (abs_var c Vc). rewrite <- Eq. apply aeq_refl.
+    + rewrite (comb_fixed c t E) by (rewrite Fc; apply orb_true_r). rewrite Fc, Ft. simpl.
+      exists TAny. split; [reflexivity|]. split; [reflexivity|].
+      rewrite <- Eq. apply aeq_any.
+Qed.
+
+Lemma combine_from_pure : forall ts c, pure_ty c = true -> Forall (fun t => pure_ty t = true) ts ->
+  exists r, combine_from c ts = Some r /\ pure_ty r = true /\
+    forall T, Asg (abs r) T <-> (Asg (abs c) T /\ forall t, In t ts -> Asg (abs t) T).
+Proof.
+  induction ts as [|t ts IH]; intros c Pc Hts; simpl.
+  - exists c. split; [reflexivity|]. split; [exact Pc|]. intro T. split; [intro H; split; [exact H | intros t []] | intros [H _]; exact H].
+  - inversion Hts; subst.
+    destruct (combine2_pure c t Pc H1) as (r & E & Pr & A). rewrite E.
+    destruct (IH r Pr H2) as (r' & E' & Pr' & U). exists r'. split; [exact E'|]. split; [exact Pr'|].
+    intro T. rewrite U, (A T), sjoin_ub. split.
+    + intros [[Hc Ht] Hr]. split; [exact Hc|]. intros x [<- | Hx]; auto.
+    + intros [Hc Hr]. split; [split; auto|]. intros x Hx; auto.
+Qed.
+
+(* THE inference theorem for the current combineTypes: for elements that are
+   variables, constants or empty literals (any number, any types, any depth)
+   it does not crash and returns the specification's Strictest element type *)
+Theorem combine_strictest ts :
+  ts <> [] -> Forall (fun t => pure_ty t = true) ts ->
+  exists r, combine ts = Some r /\ pure_ty r = true /\ Strictest (map abs ts) (erase r).
 Proof.
   intros Hne Hts. destruct ts as [|c ts]; [contradiction|]. inversion Hts; subst.
-  destruct (combine_from_const ts c H1 H2) as (r & E & C & F).
-  exists r. split; [exact E|]. split; [exact C|].
-  change (erase r) with (snd (KConst, erase r)).
-  apply strictest_is_Strictest. simpl. rewrite (abs_const c H1). rewrite F. reflexivity.
+  destruct (combine_from_pure ts c H1 H2) as (r & E & Pr & U).
+  exists r. split; [exact E|]. split; [exact Pr|].
+  assert (Hr : Asg (abs r) (erase r)) by (unfold Asg; simpl; constructor).
+  apply U in Hr as [Hc Hr]. split.
+  - intros e He. simpl in He. destruct He as [<- | He]; [exact Hc|].
+    apply in_map_iff in He as [t [<- Ht]]. apply Hr; exact Ht.
+  - intros T' HT'. change (erase r) with (snd (abs r)). apply asg_converts. apply U. split.
+    + apply HT'. left; reflexivity.
+    + intros t Ht. apply HT'. right. apply in_map; exact Ht.
 Qed.
 
-(* hence invariant under any reordering of the elements (what C08 needs for
-   map literals, whose values are visited in Go map order) *)
-Theorem combine_const_perm ts ts' r r' :
+(* every element is accepted by the combined type: what wrapAny relies on *)
+Corollary combine_upper_bound ts r :
+  Forall (fun t => pure_ty t = true) ts -> combine ts = Some r ->
+  forall t, In t ts -> accepts r t = true.
+Proof.
+  intros Hts E t Ht.
+  assert (Hne : ts <> []) by (intro; subst; discriminate).
+  destruct (combine_strictest ts Hne Hts) as (r' & E' & Pr & [UB _]). rewrite E in E'; inversion E'; subst r'.
+  apply accepts_iff_assignable; [apply pure_spec; exact Pr | rewrite Forall_forall in Hts; apply Hts; exact Ht|].
+  apply (UB (abs t)). apply in_map; exact Ht.
+Qed.
+
+(* invariant under any reordering of the elements *)
+Theorem combine_perm ts ts' r r' :
   (forall t, In t ts <-> In t ts') ->
-  Forall (fun t => const_ty t = true) ts -> Forall (fun t => const_ty t = true) ts' ->
+  Forall (fun t => pure_ty t = true) ts -> Forall (fun t => pure_ty t = true) ts' ->
   combine ts = Some r -> combine ts' = Some r' -> erase r = erase r'.
 Proof.
   intros P H H' E E'.
   assert (Hne : ts <> []) by (intro; subst; discriminate).
   assert (Hne' : ts' <> []) by (intro; subst; discriminate).
-  destruct (combine_const_strictest ts Hne H) as (x & Ex & _ & Sx).
-  destruct (combine_const_strictest ts' Hne' H') as (x' & Ex' & _ & Sx').
+  destruct (combine_strictest ts Hne H) as (x & Ex & _ & Sx).
+  destruct (combine_strictest ts' Hne' H') as (x' & Ex' & _ & Sx').
   rewrite E in Ex; inversion Ex; subst x. rewrite E' in Ex'; inversion Ex'; subst x'.
   eapply Strictest_unique; [exact Sx|].
   eapply Strictest_perm; [|exact Sx'].
   intro e. rewrite !in_map_iff. split; intros [t [<- Ht]]; exists t; split; auto; apply P; auto.
 Qed.
 
-(* REFUTED on the unchanged tree as soon as a variable is mixed with literals:
-   [[2] x ["a"]] with x:[]num.  combineTypes answers []any although the
-   variable x (Fixed []num) is not assignable to it (wrapAny then panics),
-   and the answer depends on the order of the elements. *)
-Lemma combine_strictest_refuted :
-  exists ts r, Forall (fun t => pure_ty t = true) ts /\ combine ts = Some r /\
+(* ---------- regression lemmas about combineTypes BEFORE commit 0e214ac ---------- *)
+Lemma combine_strictest_before_fix_refuted :
+  exists ts r, Forall (fun t => pure_ty t = true) ts /\ combine_old ts = Some r /\
     exists t, In t ts /\ accepts r t = false.
 Proof.
   exists [TArr false TNum; TArr true TNum; TArr false TString], (TArr false TAny).
@@ -571,10 +744,10 @@ Proof.
   exists (TArr true TNum). split; [simpl; auto | reflexivity].
 Qed.
 
-Lemma combine_perm_refuted :
+Lemma combine_perm_before_fix_refuted :
   exists ts ts' r r', (forall t, In t ts <-> In t ts') /\
     Forall (fun t => pure_ty t = true) ts /\
-    combine ts = Some r /\ combine ts' = Some r' /\ erase r <> erase r'.
+    combine_old ts = Some r /\ combine_old ts' = Some r' /\ erase r <> erase r'.
 Proof.
   exists [TArr false TNum; TArr true TNum; TArr false TString],
          [TArr true TNum; TArr false TNum; TArr false TString],
@@ -583,9 +756,8 @@ Proof.
   split; [reflexivity|]. split; [reflexivity|]. discriminate.
 Qed.
 
-(* not the strictest type either:  [x []]  with x:[]num is typed []any *)
-Lemma combine_not_strictest_refuted :
-  exists ts r, Forall (fun t => pure_ty t = true) ts /\ combine ts = Some r /\
+Lemma combine_not_strictest_before_fix_refuted :
+  exists ts r, Forall (fun t => pure_ty t = true) ts /\ combine_old ts = Some r /\
     ~ Strictest (map abs ts) (erase r).
 Proof.
   exists [TArr true TNum; TEmptyArr], TAny.
@@ -594,4 +766,54 @@ Proof.
   assert (H : Converts SAny (SArr SNum)).
   { apply L. intros e [<- | [<- | []]]; simpl; [constructor | apply As_conv; constructor]. }
   inversion H.
+Qed.
+
+(* ---------- wrapAny ---------- *)
+(* wrap_total would say: whenever the parser built node n without error and
+   accepts target (type of n), wrapAny n target does not panic.  It is still
+   FALSE on the current tree: commit 48eed77 taught wrapAny to look inside
+   groups, concatenations, repetitions and slices, but an index expression, a
+   field access, a call result, a type assertion (and a slice of one of them)
+   still carry the unfixed composite type parseType / Sub gave them.
+   Witness:  func f:[]num … ; a:[]any ; a = f   *)
+Lemma wrap_total_refuted :
+  exists e n target, tc e = ONode n false /\ accepts target (node_type n) = true /\ wrap_any n target = None.
+Proof.
+  exists (ECall (SArr SNum)), (NLeaf (TArr false TNum)), (TArr true TAny).
+  repeat split; reflexivity.
+Qed.
+
+(* what IS total: values whose type is rigid (basic types, any, variables and
+   everything Fixed) are never converted, only wrapped in Any or passed through *)
+Definition rigid (t : ty) : bool :=
+  match t with
+  | TArr f _ | TMap f _ => f
+  | TEmptyArr | TEmptyMap | TGenArr | TGenMap => false
+  | _ => true
+  end.
+
+Lemma accepts_from_fixed_equals : forall l r rf,
+  has_generic l = false -> has_empty r = false -> rf || fixed r = true ->
+  accepts_from false rf l r = true -> equals l r = true.
+Proof.
+  induction l; intros r rf Hg He Hx H; destruct r; simpl in *; try discriminate; try reflexivity;
+    try (rewrite Hx in H; simpl in H; try discriminate);
+    try (eapply IHl; eauto; apply orb_true_l); try exact H.
+Qed.
+
+Theorem wrap_total_rigid t target :
+  rigid t = true -> has_empty t = false -> has_generic target = false \/ is_generic target = true ->
+  accepts target t = true -> exists n', wrap_any (NLeaf t) target = Some n'.
+Proof.
+  intros Hr He Hg Ha. unfold wrap_any. simpl.
+  destruct (equals target t) eqn:E; [eauto|].
+  destruct (is_any target) eqn:A; [eauto|].
+  destruct (is_generic target) eqn:G; [eauto|].
+  exfalso. destruct Hg as [Hg | Hg]; [|discriminate].
+  unfold accepts in Ha.
+  destruct target; simpl in *; try discriminate;
+    destruct t; simpl in *; try discriminate;
+    subst; simpl in *;
+    try (apply accepts_from_fixed_equals in Ha; auto; congruence);
+    try congruence.
 Qed.
